@@ -136,7 +136,7 @@ def run_crosshair(job, rep):
         p = os.path.join(td, "c01_target.py")
         open(p, "w").write(src)
         line = next(i + 1 for i, l in enumerate(src.splitlines()) if l.startswith(f"def {job['fn']}("))
-        env = dict(os.environ, PYTHONPATH="/repo", PYTHONDONTWRITEBYTECODE="1")
+        env = dict(os.environ, PYTHONPATH=os.environ.get("VERIF_REPO", "/repo"), PYTHONDONTWRITEBYTECODE="1")
         env.pop("VERIF_REPO", None)
         t0 = time.time()
         pr = subprocess.run([os.path.join(root, ".venv", "bin", "python"), "-m", "crosshair", "check", "--report_all",
